@@ -92,6 +92,10 @@ let handle (f : string list) : string =
   | ["descendants"; nodes; _; n] ->
     let (_, g) = parse_nodes nodes in
     "ms\t" ^ sorted_idxs (descendants_paths g (nat (int_of_string n)))
+  | ["direct"; nodes; _; n] ->
+    let (_, g) = parse_nodes nodes in
+    let i = nat (int_of_string n) in
+    Printf.sprintf "direct\t%s\t%s" (sorted_idxs (deps g i)) (sorted_idxs (dependants g i))
   | ["deps"; nodes; cfg; n; t] ->
     let (ns, g) = parse_nodes nodes in
     with_cfg cfg (fun c ->
